@@ -1,6 +1,6 @@
 #!/bin/bash
 # usage: try_seeded.sh <dir-with-patch.diff> <Cxx> [tier]  — applies the change to /repo, runs the check, reverts
-d=$1; p=$2; t=${3:-quick}
+d=$(cd /verif; realpath $1); p=$2; t=${3:-quick}
 cd /repo || exit 9
 if ! git diff --quiet; then echo "/repo dirty"; exit 9; fi
 if git apply --check $d/patch.diff 2>/dev/null; then git apply $d/patch.diff; else git apply --3way $d/patch.diff 2>/dev/null || { echo "PATCH DOES NOT APPLY"; git reset -q --hard HEAD; exit 8; }; fi
